@@ -10,6 +10,11 @@
       fragments") is REFUTED for the current code: C15_order_refuted.  The defect class is
       [pair_in_class] (the second-enumerated anchor's ligand has the smaller key); C15_order_partial is the
       statement outside the class and C15_class_exact shows the class is not wider than the defect.
+    - the same root cause shows when a MARKED SUBSTITUENT IS CUT OFF from its anchor (the mark written at both
+      ends of the cut): the key order of ligand and anchor then follows the fragment order, not the written
+      order.  C15_table_vs_geom is the general class theorem (kb = key order, wb = written order),
+      C15_conflict_spurious / _agrees the same for pysmiles' conflict test, C15_cutoff_order_refuted and
+      C15_cutoff_conflict_refuted the witnesses (opposite class; ValueError on consistently marked input).
     - ez_renumber_invariant_partial: invariance under a structure-preserving renumbering that is monotone
       on adjacent pairs; NOT covered: renumberings that change the adjacency/edge enumeration (that is
       where the refutation lives).
@@ -72,6 +77,46 @@ Proof. exact order_invariant_outside_class. Qed.
 Theorem C15_class_exact : forall p p', pair_wf p -> pair_wf p' -> same_substituents p p' ->
   pair_in_class p = true -> pair_in_class p' = false -> pair_result p <> pair_result p'.
 Proof. exact class_exact. Qed.
+
+(** a marked substituent cut off from its anchor (the mark written at both ends of the cut, `F/[$]` …
+    `[$]/C(Cl)=…`): its key lies before or after the anchor's according to the ORDER OF THE FRAGMENTS in the
+    base graph, not according to where it was written.  General form of the class theorem (kb = key order,
+    wb = written order), the conflict test in the same terms, and the two refutations. *)
+Theorem C15_table_vs_geom : forall kb1 wb1 wb2 t1 t2, is_tok t1 = true -> is_tok t2 = true ->
+  table kb1 t1 t2 =
+  class_val (if table_broken kb1 wb1 wb2 then negb (geom_cis wb1 t1 wb2 t2) else geom_cis wb1 t1 wb2 t2).
+Proof. exact table_vs_geom. Qed.
+Theorem C15_conflict_spurious : forall a x y wbx wby, s_lig x <> a -> s_lig y <> a ->
+  conflict_free wbx wby (s_tok x) (s_tok y) = true ->
+  xorb (negb (Bool.eqb (s_lig x <? a) wbx)) (negb (Bool.eqb (s_lig y <? a) wby)) = true ->
+  conflict_check a [x; y] = Err EValue.
+Proof. exact conflict_spurious. Qed.
+Theorem C15_conflict_agrees : forall a x y wbx wby, s_lig x <> a -> s_lig y <> a ->
+  xorb (negb (Bool.eqb (s_lig x <? a) wbx)) (negb (Bool.eqb (s_lig y <? a) wby)) = false ->
+  conflict_check a [x; y] = if conflict_free wbx wby (s_tok x) (s_tok y) then Ok tt else Err EValue.
+Proof. exact conflict_agrees. Qed.
+Theorem C15_cutoff_order_refuted :
+  exists g1 g2 iso r1 r2,
+    wf_graphb g1 = true /\ wf_graphb g2 = true /\ same_marked_moleculeb iso g1 g2 = true /\
+    annotate_ez_isomers_cgsmiles g1 = Ok r1 /\ annotate_ez_isomers_cgsmiles g2 = Ok r2 /\
+    in_class g1 = false /\ in_class g2 = false /\
+    exists l1 a1 a2 l2,
+      In (ez_tuple l1 a1 a2 l2 v_trans) (ez_list r1 l1) /\
+      In (ez_tuple (iso l1) (iso a1) (iso a2) (iso l2) v_cis) (ez_list r2 (iso l1)).
+Proof. exact cutoff_order_refuted. Qed.
+Theorem C15_cutoff_conflict_refuted :
+  exists g1 g2 iso r1,
+    wf_graphb g1 = true /\ wf_graphb g2 = true /\ same_marked_moleculeb iso g1 g2 = true /\
+    annotate_ez_isomers_cgsmiles g1 = Ok r1 /\ annotate_ez_isomers_cgsmiles g2 = Err EValue.
+Proof. exact cutoff_conflict_refuted. Qed.
+Example C15_conflict_nonvacuous :
+  (* [$]/C(/Cl)=… with F/[$] listed second: F (key 5, written before the anchor 0), Cl (key 1, written after) *)
+  let x := {| s_lig := 1; s_anc := 0; s_tok := tok_slash |} in
+  let y := {| s_lig := 5; s_anc := 0; s_tok := tok_slash |} in
+  conflict_free false true (s_tok x) (s_tok y) = true /\
+  xorb (negb (Bool.eqb (s_lig x <? 0) false)) (negb (Bool.eqb (s_lig y <? 0) true)) = true /\
+  conflict_check 0 [x; y] = Err EValue.
+Proof. cbv zeta. repeat split; vm_compute; reflexivity. Qed.
 
 (** renumbering: a renaming of the keys that keeps node order and adjacency order (so every edge is still
     enumerated from the same end) and is monotone on every (neighbour, node) pair yields the same pairs,
@@ -170,6 +215,11 @@ Print Assumptions C15_ez_class_table.
 Print Assumptions C15_class_iff_wrong.
 Print Assumptions C15_ez_renumber_invariant_partial.
 Print Assumptions C15_order_refuted.
+Print Assumptions C15_table_vs_geom.
+Print Assumptions C15_conflict_spurious.
+Print Assumptions C15_conflict_agrees.
+Print Assumptions C15_cutoff_order_refuted.
+Print Assumptions C15_cutoff_conflict_refuted.
 Print Assumptions C15_order_partial.
 Print Assumptions C15_class_exact.
 Print Assumptions C15_chiral_stays_merge.
